@@ -106,6 +106,12 @@ type Ev[M any] struct {
 }
 
 func (e Ev[M]) pid() int { return e.P }
+
+// The persisted type name depends on the value (as with a schema version in the name): a name resolved once per Go
+// type would be wrong for the next event of that type.
+func (e Ev[M]) EventTypeName() string {
+	return fmt.Sprintf("%s#%d", reflect.TypeOf(e).String(), e.V%3)
+}
 func (e Ev[M]) MarshalJSON() ([]byte, error) {
 	if e.h != nil {
 		switch e.h.prog.pfaults[e.V] {
@@ -529,7 +535,7 @@ func (s *hStore) Append(ctx context.Context, e *eb.Event) (eb.Offset, error) {
 	}
 	t := 99
 	for i, o := range allOps {
-		if o.name == e.Type {
+		if e.Type == fmt.Sprintf("%s#%d", o.name, d.V%3) {
 			t = i
 		}
 	}
